@@ -29,6 +29,7 @@ theorem C16_mk_valid (a b : Rat) (i : I) (h : mk a b = .ok i) : Valid i ∧ i.lo
   · cases h; exact ⟨by assumption, rfl, rfl⟩
   · cases h
 
+/-- (definitional: documents the model's setters, carries no proof content; the setters are tied to the source by T16.tie_setters) -/
 theorem C16_setters (i : I) (x : Rat) :
     (setStart i x = if x ≤ i.hi then .ok ⟨x, i.hi⟩ else .error .assert) ∧
     (setEnd i x = if i.lo ≤ x then .ok ⟨i.lo, x⟩ else .error .assert) := ⟨rfl, rfl⟩
@@ -268,6 +269,39 @@ theorem C16_angle_containsI_iff (τ : Rat) (hτ : 0 < τ) (i j : I) (hi : Valid 
     simp only [containsAngle, sub_zero, add_zero, Bool.or_eq_true, decide_eq_true_eq, hw] at hθi
     rcases hθi with h' | h' <;> linarith
 
+/-- With the code's tolerance `ε ≥ 0` the interval-containment test is sandwiched between exact containment and
+    containment up to `ε`:  (sound) if the test accepts, every angle of `j` is an angle of `i` up to `ε`;
+    (complete) if every angle of `j` is exactly an angle of `i`, the test accepts. -/
+theorem C16_angle_containsI_sound (τ ε : Rat) (hτ : 0 < τ) (hε0 : 0 ≤ ε) (i j : I) (hi : Valid i) (hj : Valid j)
+    (h : containsAngleI τ ε i j = true) : ∀ θ, AMem τ 0 j θ → AMem τ ε i θ := by
+  unfold Valid at hi hj
+  obtain ⟨m, hm⟩ := wrap_exists τ (j.lo - i.lo)
+  have h0 := wrap_nonneg hτ (j.lo - i.lo)
+  have h1 := wrap_lt hτ (j.lo - i.lo)
+  intro θ ⟨k, ha, hb⟩
+  simp only [sub_zero, add_zero] at ha hb
+  simp only [containsAngleI, decide_eq_true_eq] at h
+  by_cases hc : τ - ε ≤ wrap τ (j.lo - i.lo)
+  · simp only [hc, if_true, zero_add] at h
+    refine ⟨k + m - 1, ?_, ?_⟩ <;> push_cast <;> linarith
+  · simp only [hc, if_false] at h
+    refine ⟨k + m, ?_, ?_⟩ <;> push_cast <;> linarith
+
+theorem C16_angle_containsI_complete (τ ε : Rat) (hτ : 0 < τ) (hε0 : 0 ≤ ε) (i j : I) (hi : Valid i) (hj : Valid j)
+    (hli : i.hi - i.lo < τ) (h : ∀ θ, AMem τ 0 j θ → AMem τ 0 i θ) : containsAngleI τ ε i j = true := by
+  have hex : containsAngleI τ 0 i j = true := by
+    rw [C16_angle_containsI_iff τ hτ i j hi hj hli]
+    intro θ hθ
+    rw [C16_angle_contains_iff τ 0 hτ (le_refl _) hτ j hj] at hθ
+    rw [C16_angle_contains_iff τ 0 hτ (le_refl _) hτ i hi]
+    exact h θ hθ
+  have h1 := wrap_lt hτ (j.lo - i.lo)
+  have h0 := wrap_nonneg hτ (j.lo - i.lo)
+  unfold Valid at hj
+  simp only [containsAngleI, sub_zero, add_zero, decide_eq_true_eq, not_le.mpr h1, if_false] at hex
+  simp only [containsAngleI, decide_eq_true_eq]
+  split <;> linarith
+
 /-- `make_valid_orientation_interval`: both ends are shifted by the same integer multiple of `τ`;
     for start ≤ end and length < τ the result lies in `[-τ, τ]` (the loops have exited). -/
 theorem C16_angle_norm (τ : Rat) (hτ : 0 < τ) (s e : Rat) (hse : s ≤ e) (hl : e - s < τ) :
@@ -376,6 +410,30 @@ theorem C16_mkAngle_rejects (τ : Rat) (s e : Rat) (hse : e < s) : ∃ err, mkAn
     rw [hu2, hd2]
   exact key _ hd
 
+/-- An angle interval of length ≥ 2π is rejected (the `assert end - start < TWO_PI`). -/
+theorem C16_mkAngle_rejects_long (τ : Rat) (s e : Rat) (hl : τ ≤ e - s) : mkAngle τ s e = .error .assert := by
+  have hd2 : ∀ (n : Nat) (a b : Rat), (downLoop2 n τ a b).2 - (downLoop2 n τ a b).1 = b - a := by
+    intro n
+    induction n with
+    | zero => intro a b; simp [downLoop2]
+    | succ n ih => intro a b; unfold downLoop2; split
+                   · rw [ih]; ring
+                   · rfl
+  have hu2 : ∀ (n : Nat) (a b : Rat), (upLoop2 n τ a b).2 - (upLoop2 n τ a b).1 = b - a := by
+    intro n
+    induction n with
+    | zero => intro a b; simp [upLoop2]
+    | succ n ih => intro a b; unfold upLoop2; split
+                   · rw [ih]; ring
+                   · rfl
+  have hd : (makeValidInterval τ s e).2 - (makeValidInterval τ s e).1 = e - s := by
+    unfold makeValidInterval
+    simp only []
+    rw [hu2, hd2]
+  unfold mkAngle
+  simp only []
+  rw [if_pos (by rw [hd]; exact not_lt.mpr hl)]
+
 /-- Shifting an angle interval never raises and yields the image set (as a set of angles). -/
 theorem C16_angle_shift (τ ε : Rat) (hτ : 0 < τ) (hε0 : 0 ≤ ε) (hε : ε < τ) (i : I) (hi : Valid i)
     (hl : i.hi - i.lo < τ) (k : Rat) :
@@ -390,6 +448,14 @@ theorem C16_angle_shift (τ ε : Rat) (hτ : 0 < τ) (hε0 : 0 ≤ ε) (hε : ε
   constructor
   · rintro ⟨n, a, b⟩; exact ⟨n, by linarith, by linarith⟩
   · rintro ⟨n, a, b⟩; exact ⟨n, by linarith, by linarith⟩
+
+/-- The same for `-`: `A - k` denotes the angles `θ` with `θ + k ∈ A`. -/
+theorem C16_angle_shift_sub (τ ε : Rat) (hτ : 0 < τ) (hε0 : 0 ≤ ε) (hε : ε < τ) (i : I) (hi : Valid i)
+    (hl : i.hi - i.lo < τ) (k : Rat) :
+    ∃ r, subAngle τ i k = .ok r ∧ Valid r ∧
+      ∀ θ, containsAngle τ ε r θ = true ↔ containsAngle τ ε i (θ + k) = true := by
+  have := C16_angle_shift τ ε hτ hε0 hε i hi hl (-k)
+  simpa [addAngle, subAngle, sub_eq_add_neg] using this
 
 /-! ### non-vacuity -/
 
